@@ -38,6 +38,7 @@ pub fn check<K: Kmer, P: PayKind>(c: &GCase) -> CheckResult {
         .label(c.entry == Entry3::Hash, "entry_hash")
         .label(c.entry == Entry3::SortedSlice, "entry_sorted_slice")
         .label(c.entry == Entry3::NoExts, "entry_no_exts")
+        .label(c.entry == Entry3::SortedSliceRaw, "entry_sorted_slice_unpruned")
         .label(c.shards >= 2, "shard_table_with_outside_exts")
         .label(c.min_count >= 2 && c.min_count != 255, "threshold>=2"))
 }
